@@ -2,7 +2,7 @@
    raising flush bodies, oracle), history and fuel.
 
    O1 (stable outcome)  [stab]: a batch-item entry that has an outcome is never touched again by any
-      transition; [OutInv]: every EvItemDone h o in the trace is recorded in the heap: the entry of h is
+      transition; [pres]: no transition changes the outcome of any computed future; [OutInv]: every EvItemDone h o in the trace is recorded in the heap: the entry of h is
       mkFut (Some o) (KItem ...) - in the state that emitted it and in every later state.
    O2 (which outcome)   [expected_outcome]: the flush body walks the items in order and raises (if scripted)
       before touching item number k; an item occurring before the raise position ([reached]) whose
@@ -967,6 +967,237 @@ Proof.
   destruct (done_in_mid _ _ _ _ (proj1 Sv)) as [Hx Hl].
   destruct (Ho h o) as (key & a & G & Eo); [apply in_or_app; right; left; reflexivity|].
   exists kind, idx, items, l0, pre, key, a. auto.
+Qed.
+
+(* ------------------------------------------------------------------ O1 for EVERY future *)
+(* the outcome of a computed future (task, batch item, lazy future, constant) never changes *)
+Definition pres (s s' : st) : Prop :=
+  forall h f, get h s = Some f -> f_out f <> None -> exists f', get h s' = Some f' /\ f_out f' = f_out f.
+
+(* helpers that change no outcome at all (and create no entry) *)
+Definition sameout (s s' : st) : Prop := forall h, option_map f_out (get h s') = option_map f_out (get h s).
+
+Lemma pres_refl s : pres s s. Proof. intros h f G _. exists f. auto. Qed.
+Lemma pres_trans a b c : pres a b -> pres b c -> pres a c.
+Proof.
+  intros A B h f G O. destruct (A h f G O) as (f1 & G1 & O1). destruct (B h f1 G1) as (f2 & G2 & O2); [congruence|].
+  exists f2. split; [exact G2|congruence].
+Qed.
+Lemma sameout_refl s : sameout s s. Proof. intros h. reflexivity. Qed.
+Lemma sameout_trans a b c : sameout a b -> sameout b c -> sameout a c.
+Proof. intros A B h. rewrite B. apply A. Qed.
+Lemma sameout_view s s' : heap s' = heap s -> sameout s s'.
+Proof. intros E h. unfold get. rewrite E. reflexivity. Qed.
+Lemma sameout_pres s s' : sameout s s' -> pres s s'.
+Proof.
+  intros S h f G _. specialize (S h). rewrite G in S. destruct (get h s') as [f'|]; cbn in S; [|discriminate].
+  exists f'. split; [reflexivity|congruence].
+Qed.
+Lemma sameout_computed s s' h : sameout s s' -> computed h s' = computed h s.
+Proof.
+  intros S. specialize (S h). unfold computed. destruct (get h s') as [f'|], (get h s) as [f|]; cbn in S; try discriminate; [|reflexivity].
+  inversion S as [E]. rewrite E. reflexivity.
+Qed.
+
+Lemma sameout_put h f f' s : get h s = Some f -> f_out f' = f_out f -> sameout s (put h f' s).
+Proof.
+  intros G O h0. rewrite get_put. destruct (fid_eqb h0 h) eqn:E; [|reflexivity].
+  apply fid_eqb_eq in E. subst h0. rewrite G. cbn. rewrite O. reflexivity.
+Qed.
+
+Lemma sameout_set_task t tk s : sameout s (set_task t tk s).
+Proof.
+  unfold set_task. destruct (get t s) as [f|] eqn:G; [|apply sameout_refl].
+  apply (sameout_put t f); [exact G|reflexivity].
+Qed.
+
+Lemma sameout_emit e s : sameout s (emit e s). Proof. apply sameout_view; reflexivity. Qed.
+Lemma sameout_var_set v x s : sameout s (var_set v x s). Proof. apply sameout_view; reflexivity. Qed.
+Lemma sameout_ci_put k c s : sameout s (ci_put k c s). Proof. apply sameout_view; reflexivity. Qed.
+
+Ltac sstep :=
+  match goal with
+  | |- sameout ?s ?s => apply sameout_refl
+  | |- sameout _ (emit _ _) => eapply sameout_trans; [|apply sameout_emit]
+  | |- sameout _ (set_task _ _ _) => eapply sameout_trans; [|apply sameout_set_task]
+  | |- sameout _ (var_set _ _ _) => eapply sameout_trans; [|apply sameout_var_set]
+  | |- sameout _ (ci_put _ _ _) => eapply sameout_trans; [|apply sameout_ci_put]
+  end.
+Ltac ssm := repeat sstep.
+
+Lemma sameout_enter_ctx t c s : sameout s (enter_ctx t c s).
+Proof. unfold enter_ctx. destruct (get_task t s); destruct c; ssm. Qed.
+Lemma sameout_pause_plain t c s : sameout s (pause_plain t c s).
+Proof. destruct c; unfold pause_plain; ssm. Qed.
+Lemma sameout_exit_ctx t c s : sameout s (exit_ctx t c s).
+Proof.
+  unfold exit_ctx. destruct (get_task t s) as [tk|]; [destruct (tk_cact tk)|];
+    try (eapply sameout_trans; [|apply sameout_pause_plain]); ssm.
+Qed.
+
+Lemma sameout_fold {X} (f : st -> X -> st) l : (forall s x, sameout s (f s x)) -> forall s, sameout s (fold_left f l s).
+Proof. intros H. induction l as [|x l IH]; intros s; cbn; [apply sameout_refl|]. eapply sameout_trans; [apply H|apply IH]. Qed.
+
+Lemma sameout_resume1 t c s : sameout s (fst (resume1 t c s)).
+Proof. unfold resume1. destruct c as [cid f|cid|cid var v]; [destruct f| |]; cbn [fst]; t_regs; cbn [fst]; ssm. Qed.
+Lemma sameout_pause1 t c s : sameout s (fst (pause1 t c s)).
+Proof. unfold pause1. destruct c as [cid f|cid|cid var v]; [destruct f| |]; cbn [fst]; t_regs; cbn [fst]; ssm. Qed.
+
+Lemma sameout_fold_pair {X E} (f : st * E -> X -> st * E) l :
+  (forall a x, sameout (fst a) (fst (f a x))) -> forall a, sameout (fst a) (fst (fold_left f l a)).
+Proof. intros H. induction l as [|x l IH]; intros a; cbn; [apply sameout_refl|]. eapply sameout_trans; [apply H|apply IH]. Qed.
+
+(* writing an entry that has no outcome *)
+Lemma pres_put_uncomputed h f' s : computed h s = false -> pres s (put h f' s).
+Proof.
+  intros C h0 f G O. rewrite get_put. destruct (fid_eqb h0 h) eqn:E; [|exists f; auto].
+  exfalso. apply fid_eqb_eq in E. subst h0. unfold computed in C. rewrite G in C. destruct (f_out f); [discriminate|congruence].
+Qed.
+
+(* set_value / set_error on a task that is not computed *)
+Lemma pres_complete_task t o s : computed t s = false -> pres s (complete_task t o s).
+Proof.
+  intros C. unfold complete_task. destruct (get_task t s) as [tk|]; [|apply pres_refl].
+  assert (H : sameout s (match tk_gen tk with
+                         | Some _ => fold_left (fun s c => exit_ctx t c s) (rev (tk_ctxs tk)) s
+                         | None => s end)).
+  { destruct (tk_gen tk); [|apply sameout_refl]. apply sameout_fold. intros. apply sameout_exit_ctx. }
+  match goal with |- pres s (match get_task t ?x with _ => _ end) => set (s1 := x) in * end.
+  destruct (get_task t s1) as [tk1|]; [|apply sameout_pres; exact H].
+  eapply pres_trans; [apply sameout_pres; exact H|].
+  eapply pres_trans; [|apply sameout_pres; apply sameout_emit].
+  apply pres_put_uncomputed. rewrite (sameout_computed s s1 t H). exact C.
+Qed.
+
+Lemma pres_accept_error t e s : pres s (accept_error t e s).
+Proof. unfold accept_error. destruct (computed t s) eqn:C; [apply pres_refl|apply pres_complete_task; exact C]. Qed.
+
+Lemma pres_resume_contexts t s : pres s (resume_contexts t s).
+Proof.
+  unfold resume_contexts. destruct (get_task t s) as [tk|]; [|apply pres_refl].
+  destruct (tk_cact tk); [apply pres_refl|].
+  match goal with |- context [fold_left ?f ?l ?a] =>
+    assert (H2 : sameout s (fst (fold_left f l a))) end.
+  { match goal with |- sameout s (fst (fold_left ?f ?l (?s0, ?e))) =>
+      apply (sameout_trans s s0); [apply sameout_set_task | apply (sameout_fold_pair f l) with (a := (s0, e))] end.
+    intros [s0 e0] c. cbn [fst]. pose proof (sameout_resume1 t c s0) as Rr. destruct (resume1 t c s0). exact Rr. }
+  match goal with |- context [fold_left ?f ?l ?a] => destruct (fold_left f l a) as [s1 [e|]] end;
+    cbn [fst] in H2; [eapply pres_trans; [apply sameout_pres; exact H2|apply pres_accept_error]|apply sameout_pres; exact H2].
+Qed.
+
+Lemma pres_pause_contexts t s : pres s (pause_contexts t s).
+Proof.
+  unfold pause_contexts. destruct (get_task t s) as [tk|]; [|apply pres_refl].
+  destruct (negb (tk_cact tk)); [apply pres_refl|].
+  match goal with |- context [fold_left ?f ?l ?a] =>
+    assert (H2 : sameout s (fst (fold_left f l a))) end.
+  { match goal with |- sameout s (fst (fold_left ?f ?l (?s0, ?e))) =>
+      apply (sameout_trans s s0); [apply sameout_set_task | apply (sameout_fold_pair f l) with (a := (s0, e))] end.
+    intros [s0 e0] c. cbn [fst]. pose proof (sameout_pause1 t c s0) as Rr. destruct (pause1 t c s0). exact Rr. }
+  match goal with |- context [fold_left ?f ?l ?a] => destruct (fold_left f l a) as [s1 [e|]] end;
+    cbn [fst] in H2; [eapply pres_trans; [apply sameout_pres; exact H2|apply pres_accept_error]|apply sameout_pres; exact H2].
+Qed.
+
+Lemma pres_view s s' : heap s' = heap s -> pres s s'.
+Proof. intros E. apply sameout_pres, sameout_view. exact E. Qed.
+
+Lemma pres_flush_batch P k s : pres s (flush_batch P k s).
+Proof.
+  destruct (b_done (get_batch k s)) eqn:Hd; [rewrite (flush_done_is_noop P k s Hd); apply pres_refl|].
+  destruct (flush_batch_form P k s Hd) as (dones & _ & C & _). intros h f G O. exists f. split; [exact (C h f G O)|reflexivity].
+Qed.
+
+Lemma pres_continue_with_batch P s : pres s (continue_with_batch P s).
+Proof.
+  pose proof (continue_with_batch_form P s) as F. pose proof (select_batches P s) as [_ Hs].
+  destruct (select P s) as [[k|] s1]; cbn [snd] in Hs.
+  - destruct F as (s3 & e1 & -> & Hh & _). eapply pres_trans; [apply pres_view; exact Hh|].
+    eapply pres_trans; [apply pres_flush_batch|apply pres_view; reflexivity].
+  - destruct F as (-> & _). apply pres_view. exact Hs.
+Qed.
+
+Lemma pres_schedule_batch k s : pres s (schedule_batch k s).
+Proof. unfold schedule_batch. destruct (b_done _); [apply pres_refl|]. destruct (existsb _ _); [apply pres_refl|apply pres_view; reflexivity]. Qed.
+
+Lemma pres_create p f s : dom s -> pres s (snd (create p f s)).
+Proof.
+  intros D h0 f0 G _. exists f0. split; [|reflexivity]. unfold create, alloc. cbn zeta.
+  assert (N : fid_eqb h0 [top_next s] = false).
+  { destruct (fid_eqb h0 [top_next s]) eqn:E; [|reflexivity]. apply fid_eqb_eq in E. subst h0.
+    rewrite (fresh_none s D) in G. discriminate. }
+  destruct f; cbn [snd]; try change (get h0 (put_batch ?k ?b ?s')) with (get h0 s'); rewrite get_put, N; exact G.
+Qed.
+
+Lemma pres_inst p y s : dom s -> pres s (snd (inst p y s)).
+Proof.
+  intros D.
+  assert (H : dom (snd (inst p y s)) /\ pres s (snd (inst p y s))).
+  { apply (inst_pres (fun s' => dom s' /\ pres s s')); [|split; [exact D|apply pres_refl]].
+    intros p0 f0 s0 [D0 S0]. split.
+    - destruct (mild_create p0 f0 s0) as (evs & _ & _ & G). exact (proj1 (G D0)).
+    - eapply pres_trans; [exact S0|apply pres_create; exact D0]. }
+  exact (proj2 H).
+Qed.
+
+Lemma pres_emit e s : pres s (emit e s). Proof. apply pres_view; reflexivity. Qed.
+Lemma pres_pop_task s : pres s (pop_task s). Proof. apply pres_view; reflexivity. Qed.
+Lemma pres_with_tasks s x : pres s (with_tasks s x). Proof. apply pres_view; reflexivity. Qed.
+Lemma pres_with_active s x : pres s (with_active s x). Proof. apply pres_view; reflexivity. Qed.
+Lemma pres_reset_sched s : pres s (reset_sched s). Proof. apply pres_view; reflexivity. Qed.
+Lemma pres_drop_sb s : pres s (drop_sb s). Proof. apply pres_view; apply heap_drop_sb. Qed.
+
+Ltac ph :=
+  repeat match goal with
+  | |- pres ?s ?s => apply pres_refl
+  | |- pres _ (emit _ _) => eapply pres_trans; [|apply pres_emit]
+  | |- pres _ (set_task _ _ _) => eapply pres_trans; [|apply sameout_pres; apply sameout_set_task]
+  | |- pres _ (put _ _ _) => eapply pres_trans; [|apply pres_put_uncomputed; eassumption]
+  | |- pres _ (pop_task _) => eapply pres_trans; [|apply pres_pop_task]
+  | |- pres _ (with_tasks _ _) => eapply pres_trans; [|apply pres_with_tasks]
+  | |- pres _ (with_active _ _) => eapply pres_trans; [|apply pres_with_active]
+  | |- pres _ (reset_sched _) => eapply pres_trans; [|apply pres_reset_sched]
+  | |- pres _ (drop_sb _) => eapply pres_trans; [|apply pres_drop_sb]
+  | |- pres _ (resume_contexts _ _) => eapply pres_trans; [|apply pres_resume_contexts]
+  | |- pres _ (pause_contexts _ _) => eapply pres_trans; [|apply pres_pause_contexts]
+  | |- pres _ (complete_task _ _ _) => eapply pres_trans; [|apply pres_complete_task; eassumption]
+  | |- pres _ (accept_error _ _ _) => eapply pres_trans; [|apply pres_accept_error]
+  | |- pres _ (enter_ctx _ _ _) => eapply pres_trans; [|apply sameout_pres; apply sameout_enter_ctx]
+  | |- pres _ (exit_ctx _ _ _) => eapply pres_trans; [|apply sameout_pres; apply sameout_exit_ctx]
+  | |- pres _ (schedule_batch _ _) => eapply pres_trans; [|apply pres_schedule_batch]
+  | |- pres _ (flush_batch _ _ _) => eapply pres_trans; [|apply pres_flush_batch]
+  | |- pres _ (continue_with_batch _ _) => eapply pres_trans; [|apply pres_continue_with_batch]
+  end.
+
+(* no transition of the machine ever changes the outcome of a computed future *)
+Theorem pres_step P c : dom (c_st c) -> pres (c_st c) (c_st (step P c)).
+Proof.
+  destruct c as [m fr s]. cbn [c_st]. intros D.
+  destruct m as [h| | | |t|t p| |o|e|o|]; cbn [step c_mode c_frames c_st];
+    try (destr_eq; ph; fail).
+  (* MRun *)
+  destruct p as [v|v|e|y k|f k|h k|cx k|cx k|var k|k]; cbn [c_st];
+    try (destr_eq; ph; fail).
+  - pose proof (pres_inst t y s D) as S1. destruct (inst t y s) as [y' s1]. cbn [snd] in S1.
+    destruct (get_task t s1) as [tk|] eqn:G; cbn [c_st]; [|exact S1].
+    destruct (futs (extract y')); cbn [c_st]; (eapply pres_trans; [exact S1|apply sameout_pres; apply sameout_set_task]).
+  - pose proof (pres_create t f s D) as S1. destruct (create t f s) as [h s1]. cbn [snd c_st] in *. exact S1.
+Qed.
+
+Lemma pres_run P n : forall c, Inv (c_st c) -> pres (c_st c) (c_st (run P n c)).
+Proof.
+  induction n as [|n IH]; intros c HI; [apply pres_refl|]. rewrite run_S.
+  destruct (is_final (c_mode c)); [apply pres_refl|].
+  eapply pres_trans; [apply pres_step; exact (proj1 HI)|apply IH; apply Inv_step; exact HI].
+Qed.
+
+(* in outcome_of / computed form *)
+Theorem run_outcome_never_changes P n c h :
+  Inv (c_st c) -> computed h (c_st c) = true ->
+  computed h (c_st (run P n c)) = true /\ outcome_of h (c_st (run P n c)) = outcome_of h (c_st c).
+Proof.
+  intros HI C. unfold computed, outcome_of in *. destruct (get h (c_st c)) as [f|] eqn:G; [|discriminate].
+  destruct (f_out f) as [o|] eqn:O; [|discriminate].
+  destruct (pres_run P n c HI h f G) as (f' & G' & O'); [congruence|]. rewrite G', O', O. auto.
 Qed.
 
 (* ------------------------------------------------------------------ non-vacuity, and a refuted shortcut *)
